@@ -33,8 +33,8 @@ type SCase struct {
 }
 
 func genS(t *rapid.T) SCase {
-	c := SCase{Timeout: rapid.IntRange(2, 3).Draw(t, "timeout"), TCPMux: rapid.Bool().Draw(t, "tcpmux"), PingMs: rapid.SampledFrom([]int{300, 700, 1100}).Draw(t, "pingms"),
-		Pings: rapid.IntRange(0, 5).Draw(t, "pings"), After: rapid.SampledFrom([]string{"silent", "silent", "invalid", "other", "keep"}).Draw(t, "after")}
+	c := SCase{Timeout: rapid.SampledFrom([]int{2, 3, 5, 6}).Draw(t, "timeout"), TCPMux: rapid.Bool().Draw(t, "tcpmux"), PingMs: rapid.SampledFrom([]int{300, 700, 1100}).Draw(t, "pingms"),
+		Pings: rapid.IntRange(0, 8).Draw(t, "pings"), After: rapid.SampledFrom([]string{"silent", "silent", "invalid", "other", "keep"}).Draw(t, "after")}
 	c.Scope = c.After == "invalid" || rapid.Bool().Draw(t, "scope")
 	return c
 }
@@ -118,8 +118,10 @@ func runS(c SCase) error {
 		}()
 	}
 	defer func() { close(stop); wg.Wait() }()
-	// the control connection must be closed within [T, T + 1 s tick + slack] of the last valid heartbeat
-	err = sc.WaitControlClosed(T + 1*time.Second + 2500*time.Millisecond - time.Since(lastValid))
+	// the control connection must be closed within [T, T + 1 s tick + slack] of the last valid heartbeat, wherever in
+	// the server's checking rhythm that heartbeat fell (timeouts of 5 - 6 s with up to 8 s of heartbeats before the
+	// silence put it at every phase)
+	err = sc.WaitControlClosed(T + 1*time.Second + 2000*time.Millisecond - time.Since(lastValid))
 	elapsed := time.Since(lastValid)
 	if err != nil {
 		return fmt.Errorf("peer fell silent (%s) but its session is still up %v after the last valid heartbeat (timeout %ds)", c.After, elapsed, c.Timeout)
@@ -143,7 +145,7 @@ func runS(c SCase) error {
 
 func TestServerWatchdog(t *testing.T) {
 	fx.Prelease(2)
-	fx.Run(t, fx.Spec[SCase]{Prop: "C14", Name: "server_watchdog", Quick: 32, Thorough: 600, Gen: genS, Run: runS, Retry: true, ShrinkTime: "60s",
+	fx.Run(t, fx.Spec[SCase]{Prop: "C14", Name: "server_watchdog", Journal: true, Quick: 32, Thorough: 600, Gen: genS, Run: runS, Retry: true, ShrinkTime: "60s",
 		Class: func(c SCase) fx.Class {
 			return fx.Class{NonTrivial: c.Pings > 0 || c.After != "silent", Fingerprint: fmt.Sprintf("%+v", c), Labels: []string{"after=" + c.After}}
 		}})
@@ -333,7 +335,7 @@ func loginTimes(ss *fx.ScriptedServer) []int64 {
 }
 
 func TestClientWatchdogAndBackoff(t *testing.T) {
-	fx.Run(t, fx.Spec[CCase]{Prop: "C14", Name: "client_watchdog_backoff", Quick: 24, Thorough: 400, Gen: genC, Run: runC, Retry: true, ShrinkTime: "60s",
+	fx.Run(t, fx.Spec[CCase]{Prop: "C14", Name: "client_watchdog_backoff", Journal: true, Quick: 24, Thorough: 400, Gen: genC, Run: runC, Retry: true, ShrinkTime: "60s",
 		Class: func(c CCase) fx.Class {
 			return fx.Class{NonTrivial: true, Fingerprint: fmt.Sprintf("%+v", c), Labels: []string{"fault=" + c.Fault}}
 		}})
@@ -598,7 +600,7 @@ func runHeal(c HCase) error {
 }
 
 func TestHealing(t *testing.T) {
-	fx.Run(t, fx.Spec[HCase]{Prop: "C14", Name: "healing", Quick: 16, Thorough: 300, Gen: genHeal, Run: runHeal, Retry: true, ShrinkTime: "60s",
+	fx.Run(t, fx.Spec[HCase]{Prop: "C14", Name: "healing", Journal: true, Quick: 16, Thorough: 300, Gen: genHeal, Run: runHeal, Retry: true, ShrinkTime: "60s",
 		Class: func(c HCase) fx.Class {
 			long := false
 			for _, o := range c.Outages {
